@@ -82,7 +82,7 @@ _REF_OK = [False]
 
 
 def plan(tier):
-    return {'shards': 16, 'budget_s': 38 if tier == 'quick' else 600}
+    return {'shards': 16, 'budget_s': 32 if tier == 'quick' else 600}
 
 
 def H(tag, i=0):
@@ -816,7 +816,8 @@ def feed(rec, node, data, sender, origin, spec=None, single=False):
                 if comp == 'ping_queue':
                     rec.log('N3.ping_queue_changed_by_malformed:' + group)
                     continue
-                report(f'C17/N3/state-changed/{group}:{decoder}:{comp}',
+                report('C17/N3/state-changed/tcp-port-updated-by-refused-datagram' if comp == 'tcp_port' else
+                       f'C17/N3/state-changed/{group}:{decoder}:{comp}',
                        f'{comp} changed by a {verdict} datagram [{reason}; {origin}] {short}',
                        {'component': comp, 'before': _diffable(before[comp]), 'after': _diffable(after[comp])})
             if not changed:
@@ -931,7 +932,7 @@ def run_batch(rec, case, gen):
             n += 1
             verdict_ok = feed(rec, node, data, sender, origin, spec)
             clean = clean and verdict_ok
-            if n % 256 == 0 and rec.out_of_time():
+            if n % 64 == 0 and rec.out_of_time():
                 rec.note('batch_cut_on_budget', True)
                 break
         # ---- "also after letting the maintenance task run"
@@ -1184,7 +1185,8 @@ def gen_huge(case):
         tm = templates(node, case['tseed'], addr, nid)
         ping = rb.encode(tm['ping'], int_keys=True)
         head = ping[:ping.index(b'i3e')]
-        for nd in (1, 18, 19, 20, 100, 308, 309, 1000, 4299, 4300, 4301, 5000, 20000, 65000):
+        for nd in ((1, 20, 4300, 4301, 65000) if case.get('small') else
+                   (1, 18, 19, 20, 100, 308, 309, 1000, 4299, 4300, 4301, 5000, 20000, 65000)):
             digs = (b'9' * nd).hex()
             for pre, suf, what in ((b'i', b'e', 'int'), (b'i-', b'e', 'negint'), (b'', b':', 'len'), (b'l', b':xe', 'len-in-list'),
                                    (head + b'i3e', b':pinge', 'len-in-datagram'), (head + b'i3ei', b'ee', 'int-in-datagram'),
@@ -1594,9 +1596,30 @@ def gen_cases(rng, tier, shard, nshards):
 
     senders = [{'kind': 'fresh', 'i': 1}, {'kind': 'contact', 'i': 3}, {'kind': 'spoof', 'i': 5}]
     modes = ['live', 'grace']
-    # -- cheap deterministic families first, spread round-robin over the shards
+    # -- a small round of every seeded family first, so that every monitor is reached even if a loaded machine
+    #    makes the budget cut the run short
     if shard == 0:
         yield {'fam': 'fixed'}
+    sm = random.Random(rng.getrandbits(48))
+    yield {'fam': 'msg', 'seed': sm.getrandbits(48), 'count': 150}
+    yield {'fam': 'addr', 'mode': 'rand', 'seed': sm.getrandbits(48), 'count': 300}
+    yield {'fam': 'valid', 'node': {'seed': 0, 'tokens': modes[shard % 2]}, 'seed': sm.getrandbits(48), 'count': 80,
+           'sender': senders[shard % 3]}
+    yield {'fam': 'replies', 'node': {'seed': 1, 'tokens': modes[shard % 2]}, 'seed': sm.getrandbits(48), 'count': 12}
+    yield {'fam': 'mutn', 'node': {'seed': 2, 'tokens': modes[(shard + 1) % 2]}, 'tseed': sm.getrandbits(30), 'seed': sm.getrandbits(48),
+           'count': 100, 'sender': senders[(shard + 1) % 3]}
+    yield {'fam': 'rand', 'node': {'seed': 0, 'tokens': modes[shard % 2]}, 'seed': sm.getrandbits(48), 'count': 40, 'maxlen': 65536,
+           'sender': senders[(shard + 2) % 3]}
+    yield {'fam': 'retype', 'node': {'seed': 0, 'tokens': 'live'}, 'tseed': sm.getrandbits(30), 'template': 'store',
+           'sender': senders[shard % 3]}
+    yield {'fam': 'nest', 'node': {'seed': 2, 'tokens': modes[shard % 2]}, 'sender': senders[shard % 3], 'depths': [1 + shard, 1200 + shard]}
+    yield {'fam': 'huge', 'node': {'seed': 1, 'tokens': modes[shard % 2]}, 'tseed': 300 + shard, 'seed': shard, 'sender': senders[shard % 3],
+           'small': True}
+    yield {'fam': 'trunc', 'node': {'seed': 0, 'tokens': modes[shard % 2]}, 'tseed': 900 + shard, 'template': TEMPLATE_NAMES[shard % 15],
+           'sender': senders[(shard + 1) % 3]}
+    yield {'fam': 'mut1', 'node': {'seed': 0, 'tokens': modes[shard % 2]}, 'tseed': 900 + shard, 'template': TEMPLATE_NAMES[shard % 15],
+           'sender': senders[(shard + 2) % 3], 'lo': 40 + shard, 'hi': 44 + shard, 'values': 'quick'}
+    # -- deterministic families, spread round-robin over the shards
     for ti, name in enumerate(TEMPLATE_NAMES):
         for si, s in enumerate(senders if not quick else senders[:1] + [senders[1 + ti % 2]]):
             if mine():
@@ -1664,12 +1687,36 @@ def execute(rec, case):
     if fam == 'single':
         run_single(rec, case)
     elif fam == 'fixed':
+        # canonical minimal witnesses first (shard 0 runs this before anything else)
         for mode in ('grace', 'live'):
             def g(node, addr, nid):
                 for d in FIXED:
                     yield d, 'fixed', (None if len(d) < 4096 else {'rep': ['', d[:1].hex(), len(d), '']})
                 yield rb.encode({0: 2, 1: b'r' * 20, 2: nid, 3: 1, 4: 2}, int_keys=True), 'fixed:error-with-integer-fields', None
             run_batch(rec, {'fam': 'fixed', 'node': {'seed': 0, 'tokens': mode}, 'sender': {'kind': 'fresh', 'i': 0}}, g)
+        for skind in ('contact', 'fresh', 'spoof'):
+            def g2(node, addr, nid):
+                enc = lambda p: rb.encode(p, int_keys=True)  # noqa: E731
+                R = b'r' * 20
+                ping = enc({0: 0, 1: R, 2: nid, 3: b'ping', 4: [{PV: 1}]})
+                store = enc({0: 0, 1: R, 2: nid, 3: b'store', 4: [b'h' * 48, node.valid_token(addr[0]), 4000, nid, 0, {PV: 1}]})
+                yield enc({0: 0, 1: R, 2: nid, 3: b'store', 4: [b'h' * 48, 7, 4000, nid, 0, {PV: 1}]}), 'fixed:store-integer-token', None
+                yield enc({0: 0, 1: R, 2: nid, 3: b'store', 4: [b'h' * 48, b't' * 47, 4001, nid, 0, {PV: 1}]}), 'fixed:store-47-byte-token', None
+                yield enc({0: 0, 1: R, 2: nid, 3: b'nope', 4: [{PV: 1}]}), 'fixed:unknown-method', None
+                yield ping[:-1], 'fixed:ping-without-last-byte', None
+                yield ping[:-1] + b'\x00garbage', 'fixed:ping-with-garbage-tail', None
+                yield store[:-1], 'fixed:store-without-last-byte', None
+                yield enc({0: 0, 1: [0] * 20, 2: nid, 3: b'store', 4: [b'g' * 48, node.valid_token(addr[0]), 4002, nid, 0, {PV: 1}]}), \
+                    'fixed:store-rpc-id-is-a-list', None
+                yield enc({0: 0, 1: R, 2: nid, 3: 'é'.encode(), 4: [{PV: 1}]}), 'fixed:unknown-method-non-ascii', None
+                yield enc({0: 0, 1: R, 2: nid, 3: b'x' * 1400, 4: [{PV: 1}]}), 'fixed:unknown-method-1400-bytes', None
+                yield enc({0: 0, 1: R, 2: [0] * 48, 3: b'ping', 4: [{PV: 1}]}), 'fixed:node-id-list-of-ints', None
+                yield enc({0: 0, 1: R, 2: [b'a'] * 48, 3: b'ping', 4: [{PV: 1}]}), 'fixed:node-id-list-of-strings', None
+                yield enc({0: 1, 1: [0] * 20, 2: nid, 3: b'pong'}), 'fixed:response-rpc-id-is-a-list', None
+                yield enc({0: 2, 1: [0] * 20, 2: nid, 3: b'E', 4: b'm'}), 'fixed:error-rpc-id-is-a-list', None
+                yield enc({0: 0, 1: R, 2: nid, 3: b'ping', 4: b'x'}), 'fixed:args-is-a-string', None
+                yield enc({0: 0, 1: R, 2: nid, 3: b'ping', 4: {b'a': 1}}), 'fixed:args-is-a-dict', None
+            run_batch(rec, {'fam': 'fixed', 'node': {'seed': 0, 'tokens': 'live'}, 'sender': {'kind': skind, 'i': 2}}, g2)
     elif fam == 'trunc':
         run_batch(rec, case, gen_trunc(case))
     elif fam == 'mut1':
@@ -1689,9 +1736,11 @@ def execute(rec, case):
     elif fam == 'replies':
         run_replies(rec, case)
     elif fam == 'msg':
-        r = random.Random(case['seed'])
-        for _ in range(case['count']):
-            check_message(rec, *gen_message(r))
+        start = case.get('start', 0)
+        for k in range(start, start + case['count']):
+            rec.current_case = {'fam': 'msg', 'seed': case['seed'], 'start': k, 'count': 1}     # minimal replay descriptor
+            check_message(rec, *gen_message(random.Random(case['seed'] * 1000003 + k)))
+        rec.current_case = case
     elif fam == 'addr':
         if case['mode'] == 'ports':
             nid = H('addr', case['lo'])
